@@ -177,4 +177,16 @@ PROPS["C20"] = {
     "level_note": "Trusted: Coq kernel/vm_compute; Model/Registry.v validated on explored cases; a pure functional model cannot itself exhibit aliasing -- that is observed on the implementation side by feeding original and copy different continuations.",
 }
 
+PROPS["C19"] = {
+    "level": "other",
+    "corr": "Model.Ledger.{owned,exec_op,live} vs the live-value count of the instrumented owning sample type after every operation on real Median/Mean/Max/Min/Bounds/Convolve/Delay<Tok,N> instances",
+    "rule": "operation programs over {filter(v), clone, reset, guts round trip, drop} on a pool that starts with one fresh instance: every program of length <= 5 (<= 6 thorough) over the five operations for the 7 filter kinds and widths 1..3 (1..4), plus seeded random programs of 10..60 (..200) operations for widths 1..6; after every operation the number of live Tok values in the harness's ledger is compared with the model's sum of owned values; the ledger flags any drop or use of a value that is not live; at the end everything is dropped and the live count must be 0; non-trivial = the program clones and also drops or resets an instance and is longer than the window (Check/C19.v)",
+    "trusted": ["harness/src/tok.rs: instrumented sample type (unique serial per value, thread-local ledger; arithmetic creates fresh values)", "a Gallina model has no memory: undefined behaviour itself (uninitialised read, real double free) cannot be exhibited; a crash of the harness is reported as a violation without a minimal input"],
+    "assumptions": ["N >= 1"],
+    "explanation": "PARTIAL. Proved in Coq (for all widths and histories): how many sample values each windowed filter owns after any history (median: min(k,N); mean: min(k,N) taps + sum + weight; min/max deque: between 1 and N; convolution: N coefficients + N taps; delay: N), the ledger arithmetic of clone/reset/guts/drop on a pool, that nothing is live once every slot is dropped, and that the MaybeUninit initialisation loop of Median::default writes every slot exactly once before the array is read. Tied to the code by running the real filters over an instrumented owning sample type and comparing the live-value count after EVERY operation with the model; leaks, double drops and use-after-drop show up as a wrong count or a ledger anomaly. Not covered: undefined behaviour that does not change these counts.",
+    "level_text": "Partial (level other): ownership bookkeeping proved in Coq for all widths/histories and compared with an instrumented sample type's ledger after every operation of exhaustive short and random long operation programs; undefined behaviour itself is outside what a Gallina model can express.",
+    "level_note": "Trusted: Coq kernel/vm_compute; Model/Ledger.v validated on explored programs; the instrumented Tok type and its ledger; no sanitizer/Miri run is part of the registered commands.",
+    "technique": "Coq theorems about an ownership-count model + differential execution against an instrumented sample type (partial: memory safety itself is not expressible)",
+}
+
 NOT_YET = {}
